@@ -2215,3 +2215,146 @@ def check_layout(ctx, case, prop, pending=None):
                 return
     except Exception as e:
       ctx.violation('shared-instance-unbind', f'bind/unbind on a layout with a shared instance raised {classify(e)}', case)
+
+
+# ------------------------------------------------------------------------------------------------
+# functional calls on an ALREADY BOUND submodule: `self.bar.apply(vars, x, ...)` / `.init_with_output(...)` from
+# inside another module's method, and `foo.bind(V).bar.apply(other_vars, ...)`.  `bar` is a layout (holders with
+# dataclass-field submodules, depth >= 2, leaves with counters).  Implementation-side oracles: the nested call equals
+# the stand-alone call on the same variables, and the enclosing call is untouched by it.
+# ------------------------------------------------------------------------------------------------
+
+_FOO_CLASSES = {}
+
+
+def foo_class(as_field, spec_key, spec, leaves_cfg):
+  key = (as_field, spec_key)
+  if key not in _FOO_CLASSES:
+    if as_field:
+      def __call__(self, x):
+        return self.bar(x)
+
+      _FOO_CLASSES[key] = type('FooF', (nn.Module,), {'__annotations__': {'bar': object}, '__call__': __call__})
+    else:
+      def setup(self):
+        self.bar = build_value(spec, {}, leaves_cfg)
+
+      def __call__(self, x):
+        return self.bar(x)
+
+      _FOO_CLASSES[key] = type('FooS', (nn.Module,), {'setup': setup, '__call__': __call__})
+  return _FOO_CLASSES[key]
+
+
+def gen_bound_nested(rng):
+  lay = gen_layout(rng)
+  spec = lay['spec']
+  spec['setup'] = False
+  # the FIRST module-valued field of `bar` holds a module attribute itself (depth >= 2), and there are >= 2 fields
+  first = {'k': 'holder', 'fields': [['leaf', {'k': 'leaf', 'id': rng.choice([0, 1])}, 1]] +
+           ([['aux', {'k': 'leaf', 'id': 1}, 2]] if rng.random() < 0.5 else []), 'bias': rng.randrange(0, 2), 'setup': False}
+  if rng.random() < 0.5:
+    first = {'k': 'holder', 'fields': [['mid', first, 1]], 'bias': 0, 'setup': False}
+  names = [f[0] for f in spec['fields']]
+  spec['fields'].insert(0, [next(n for n in ['fst', 'fs2'] if n not in names), first, 1])
+  return {'kind': 'bound-nested', 'spec': spec, 'leaves': lay['leaves'], 'x': lay['x'], 'as_field': rng.random() < 0.5,
+          'mode': rng.choice(['nested_only', 'nested_only', 'both', 'reinit', 'bind']),
+          'mut': rng.choice([['stats'], 'stats', True, {'deny': 'params'}, ['stats', 'params']]),
+          'outer_mut': rng.choice([False, False, 'stats', True])}
+
+
+def _state_json(st):
+  return None if st is None else flatten_vars(st)[0]
+
+
+def _try(fn):
+  try:
+    return ('ok', fn())
+  except Exception as e:
+    return ('err', classify(e))
+
+
+def check_bound_nested(ctx, case):
+  spec, leaves_cfg, x = case['spec'], case['leaves'], case['x']
+  mode, mj, omj = case['mode'], case['mut'], case['outer_mut']
+  ctx.case(case)
+  ctx.count('bound_nested', mode + (':field' if case['as_field'] else ':setup'))
+  xin = np.asarray(x, F32)
+  key = the_key()
+  mk_bar = lambda: build_value(spec, {}, leaves_cfg)
+  Foo = foo_class(case['as_field'], id(spec), spec, leaves_cfg)
+  foo = Foo(bar=mk_bar()) if case['as_field'] else Foo()
+  snap0 = snap_module(foo)
+  Guard.reset()
+  r0 = _try(lambda: foo.init_with_output({'params': key}, xin))
+  rb = _try(lambda: mk_bar().init_with_output({'params': key}, xin))
+  if r0[0] != 'ok' or rb[0] != 'ok' or Guard.peak >= LIMIT:
+    return
+  foo_vars, _ = flatten_vars(r0[1][1])
+  bj, _ = flatten_vars(rb[1][1])
+  # the variables handed to the nested call differ from the enclosing ones: other weights, other counters
+  for kv in bj['vars']:
+    bump = 2 if kv[0][0] == 'params' else 5
+    kv[1] = {'t': kv[1]['t'], 'd': [d + bump for d in kv[1]['d']]}
+  mut, omut = filter_py(mj), filter_py(omj)
+  FV, BV = unflatten_vars(foo_vars), unflatten_vars(bj)
+  sF, _ = snap_tree(FV)
+  sB, _ = snap_tree(BV)
+
+  def canon(r):
+    if r[0] == 'err':
+      return r
+    v = r[1]
+    if isinstance(v, tuple) and len(v) == 2 and isinstance(v[1], (dict, FrozenDict)):
+      return ('ok', out_int(v[0]), _state_json(v[1]))
+    return ('ok', out_int(v), None)
+
+  Guard.reset()
+  ref = canon(_try(lambda: mk_bar().apply(unflatten_vars(bj), xin, mutable=mut)))
+  ref_init = canon(_try(lambda: mk_bar().init_with_output({'params': key}, xin)))
+  results = []
+  for _ in range(2):
+    if mode == 'bind':
+      res = _try(lambda: foo.bind(FV).bar.apply(BV, xin, mutable=mut))
+      results.append((canon(res), None))
+      continue
+    if mode == 'nested_only':
+      meth = lambda m, a, iv: m.bar.apply(iv, a, mutable=mut)
+    elif mode == 'both':
+      meth = lambda m, a, iv: (m.bar(a), m.bar.apply(iv, a, mutable=mut))
+    else:
+      meth = lambda m, a, iv: (m.bar(a), m.bar.init_with_output({'params': key}, a))
+    res = _try(lambda: foo.apply(FV, xin, BV, method=meth, mutable=omut))
+    upd = None
+    if res[0] == 'ok' and omut is not False:
+      res, upd = ('ok', res[1][0]), _state_json(res[1][1])
+    if res[0] == 'ok' and mode in ('both', 'reinit'):
+      y_outer, inner = res[1]
+      results.append((canon(('ok', inner)), (out_int(y_outer), upd)))
+    else:
+      results.append((canon(res) if res[0] == 'ok' else res, (None, upd)))
+  if Guard.peak >= LIMIT:
+    return
+  # what the enclosing call alone does (same method without the nested call)
+  outer_alone = None
+  if mode in ('both', 'reinit'):
+    oa = _try(lambda: foo.apply(unflatten_vars(foo_vars), xin, method=lambda m, a: m.bar(a), mutable=omut))
+    if oa[0] == 'ok':
+      outer_alone = (out_int(oa[1][0]), _state_json(oa[1][1])) if omut is not False else (out_int(oa[1]), None)
+    else:
+      outer_alone = oa
+  want = ref_init if mode == 'reinit' else ref
+  got, outer = results[0]
+  ctx.count('bound_nested_result', 'ok' if got[0] == 'ok' else str(got[1]))
+  if results[1] != results[0]:
+    ctx.violation('nested-on-bound-child:repeat-differs', f'the same call twice: {results[0]} then {results[1]}', case)
+  elif mode in ('both', 'reinit') and isinstance(outer_alone, tuple) and outer_alone[0] == 'err':
+    pass  # the enclosing stateful call itself is refused by the enclosing filter: nothing to compare
+  elif got != want and not (got[0] == 'err' and mode in ('both', 'reinit') and omut is False):
+    ctx.violation('nested-on-bound-child:differs-from-standalone', f'a functional call on a bound submodule ({mode}) gave {got}; the same submodule applied stand-alone on the same variables gives {want}', case)
+  elif mode in ('both', 'reinit') and got[0] == 'ok' and outer_alone is not None and outer != outer_alone:
+    ctx.violation('nested-on-bound-child:leaks-into-enclosing', f'enclosing call output/returned collections {outer} with the nested functional call, {outer_alone} without it', case)
+  elif snap_tree(FV)[0] != sF or snap_tree(BV)[0] != sB:
+    ctx.violation('input-mutated:variables', 'a nested functional call on a bound submodule changed the variables of the enclosing call or its own', case)
+  elif snap_module(foo) != snap0 or foo.scope is not None:
+    ctx.violation('input-mutated:module', 'a nested functional call on a bound submodule changed the module object', case)
